@@ -203,6 +203,8 @@ def check(ck):
                                        "`%s` keeps per-call data on the long-lived %s object (allowed cross-call state: %s): a later call can "
                                        "observe a previous response" % (q.stmt_text(n)[:50], cname, sorted(allowed)), q.loc(fi, n))
     ck.stat("client_state_stores", n3)
+    from rules import common as _cm19
+    _cm19.check_no_shared_mutable(ck, "C19.3", modules=("jsonrpc",))
     ck.floor("C19.3", 8)
 
     # ---- C19.4 constructor chain of the client classes; the Unix transport returns the connection it caches ----------------------
